@@ -23,6 +23,7 @@ PROBS = (0.0, 0.25, 0.5, 0.75, 1.0, 0.1)
 DYADIC_P = (0.0, 0.25, 0.5, 0.75, 1.0)
 TOL = 1e-9
 OFFSETS = (10 ** 6, 10 ** 8, 1700000000, 2 ** 40, -10 ** 9)
+WPOWS = (-60, -40, -20, 20, 40)
 OFFSET_KINDS = ("stddev", "quantile", "covariance", "corrcoef")
 EPOCH0 = 1577836800  # 2020-01-01T00:00:00, datetime facts are EPOCH0 + small second offsets
 
@@ -98,10 +99,24 @@ def gen_case(rng, kind):
         pw = rng.choice([0.0, 0.0, 0.15, 0.3])
         wvalid = [rng.random() >= pw for _ in range(N)]
         whidden = [rng.choice([float("nan"), 1e300, 0.0, 7.0]) for _ in range(N)]
+    # weight-SCALE stream: every weighted statistic here is a ratio of weighted sums, so multiplying the weights by
+    # 2^e (exact in float64; the exact model / oracle see the scaled weights too) must change nothing; 'all' rescales
+    # every row, 'stratum' only the rows of one cell (a tiny / huge stratum next to ordinary ones)
+    wpow, wpow_kind = 0, None
+    if wkind != "none" and rng.random() < 0.3:
+        wpow = rng.choice(WPOWS)
+        wpow_kind = rng.choice(["all", "all", "stratum"])
+        if wpow_kind == "stratum" and N:
+            r0 = rng.randrange(N)
+            rows = [r for r in range(N) if all(d[r] == d[r0] for d in dims)]
+        else:
+            rows = range(N)
+        for r in rows:
+            w[r] = w[r] * 2.0 ** wpow
     p = rng.choice(PROBS + (round(rng.random(), 3), rng.random()))
     case = {"kind": kind, "N": N, "exts": exts, "dims": dims, "dimdtype": rng.choice(["int64", "int64", "int8", "uint8", "int32"]),
             "K": K, "ftype": ftype, "fform": fform, "offset": offset, "fact": fact, "fvalid": fvalid, "fhidden": hidden,
-            "wkind": wkind, "w": w, "wvalid": wvalid, "whidden": whidden,
+            "wkind": wkind, "w": w, "wvalid": wvalid, "whidden": whidden, "wpow": wpow, "wpow_kind": wpow_kind,
             "ign": rng.random() < 0.5, "p": p,
             "sentinel": rng.choice([0, 0, -7, 3]) if ftype != "float" else rng.choice([0, 0.0, -7.0, 2.5])}
     fix_zero_weight_cells(case)
@@ -129,7 +144,7 @@ def exact_expected(case):
     if k == "quantile" and case["p"] in DYADIC_P:
         if case["wkind"] == "none":
             return True
-        return all(x in (0.5, 1.0, 2.0, 4.0) for x in case["w"])
+        return all(x > 0 and math.frexp(x)[0] == 0.5 for x in case["w"])
     return False
 
 
@@ -445,6 +460,9 @@ def run(ctx):
                 "spread with offset in {1e6, 1e8, 1.7e9, 2^40, -1e9} (all inputs exactly representable; for 2^40 the spread unit is 2^10: "
                 "offset/spread-unit <= 2^31, because the two-pass code's own rounding of the cell mean costs about n*ulp(offset)^2/4 of "
                 "absolute variance error, which a unit spread at 2^40 would push above the 1e-9 tolerance); "
+                "about 30 % of the weighted cases (stddev, weighted quantile, covariance) are weight-SCALE cases: all weights, or the weights of "
+                "the rows of one cell ('tiny / huge stratum'), multiplied by 2^e, e in {-60,-40,-20,20,40} (exact in float64; the unchanged "
+                "code has no absolute threshold on weight sums in these three statistics, so no scale is excluded); "
                 "a case is distinct by its whole input and non-trivial when some output cell is valid")
     ctx.trusted = list(core.STD_TRUSTED) + [
         "NumPy kernels modelled from their documentation, tied only by the correspondence: bincount, boolean-mask indexing, "
@@ -473,6 +491,7 @@ def run(ctx):
     dist = {}
     feats = {}
     offs = {}
+    wsc = {}
     for i in range(n_inputs):
         for kind in KINDS:
             case = gen_case(ctx.rng, kind)
@@ -482,6 +501,9 @@ def run(ctx):
             dist[key] = dist.get(key, 0) + 1
             for f in features(case, res):
                 feats[f] = feats.get(f, 0) + 1
+            if case.get("wpow"):
+                wk = "%s weights x 2^%d (%s)" % (kind, case["wpow"], case["wpow_kind"])
+                wsc[wk] = wsc.get(wk, 0) + 1
             if case.get("offset"):
                 ok = "%s offset %d%s" % (kind, case["offset"], "" if case["exts"] else " (zero-dimension cube)")
                 offs[ok] = offs.get(ok, 0) + 1
@@ -498,6 +520,8 @@ def run(ctx):
     ctx.coverage["situations"] = feats
     ctx.coverage["large_offset_cases"] = dict(sorted(offs.items()))
     ctx.coverage["large_offset_total"] = sum(offs.values())
+    ctx.coverage["weight_scale_cases"] = dict(sorted(wsc.items()))
+    ctx.coverage["weight_scale_total"] = sum(wsc.values())
     ctx.samples = [{k: c[k] for k in ("kind", "exts", "dims", "fact", "fvalid", "wkind", "w", "wvalid", "ign", "p")} for c in cases[:3]]
 
     res = core.run_cases("c18", "From Catii Require Import Cube.XStats Cube.XStatsCheck.", lits, "case_t", "check_case",
